@@ -48,9 +48,16 @@ def render_neat(toks, delim):
             out += '\\>'
         elif k in ('alt', 'lp', 'rp'):
             out += {'alt': '|', 'lp': '(', 'rp': ')'}[k]
+        elif k == 'bad':
+            out += v            # the raw text of a malformed pattern (never holds a delimiter or a backslash)
         if st:
             out += '*'
     return out
+
+
+def is_bad(toks):
+    """the pattern is one the editor rejects (rstr_make returns NULL): it finds nothing, whatever the text"""
+    return bool(toks) and any(k == 'bad' for k, _, _ in toks)
 
 
 def render_py(toks):
@@ -272,6 +279,13 @@ class Spec:
             self.soset = rs != ''
             m = re.match(r'[+-]?[0-9]*', rs)
             self.so = int(m.group(0)) if m and re.search('[0-9]', m.group(0)) else 0
+        if kind in 'SG':
+            # :s/pat/x/ and :g/pat/p with a pattern the editor rejects: the pattern is remembered (direction forward),
+            # nothing else happens -- no substitution, no movement, the line offset is untouched
+            assert is_bad(toks)
+            self.kw = toks
+            self.dir = 1
+            return (False, r, o)
         if kind == 'A':
             if not self.lines:
                 return (False, r, o)
@@ -283,6 +297,8 @@ class Spec:
             self.soset = False
         if not self.lines or self.dir == 0 or self.kw is None:
             return (False, r, o)
+        if is_bad(self.kw):
+            return (False, r, o)        # a pattern that does not compile matches nowhere: "not found", the cursor stays
         d = -self.dir if kind == 'N' else self.dir
         cr, co = r, o
         for i in range(cnt):
@@ -333,6 +349,9 @@ def keys_of(case):
         k += b'%dl' % case['col']
     for cmd in case['cmds']:
         kind, toks, cnt, rest = cmd[:4]
+        if kind in 'SG':
+            k += (':s/%s/x/\n' if kind == 'S' else ':g/%s/p\n').encode() % render_neat(toks, '/').encode('utf-8')
+            continue
         if cnt != 1:
             k += b'%d' % cnt
         if kind in '/?':
@@ -383,6 +402,8 @@ def model_line(case):
         kind, toks, cnt, rest = cmd[:4]
         if kind in '/?':
             cmds.append('%s%s:%d' % (kind, vlib.hx(typed_of(cmd).encode('utf-8')), cnt))
+        elif kind in 'SG':
+            cmds.append('K%s:1' % vlib.hx(render_neat(toks, '/').encode('utf-8')))      # ex_kwdset(pat, +1) and nothing else
         else:
             cmds.append('%s:%d' % (kind, cnt))
     return 'run %d %d %d %s %s' % (1 if case['ic'] else 0, case['row'], case['col'], lines, ' '.join(cmds))
@@ -559,6 +580,103 @@ def off_shapes(kind, toks, rest, other):
             [p, plain, n], [p, A, again], [p, A, again, A], [plain, A, n], [p, A, A, N]]
 
 
+# ---------------------------------------------------------------------------------------------
+# literals that overlap themselves, with \< / \> (round i/j).  The scan of rstr_find must try EVERY start offset: an
+# occurrence that fails the boundary test may be overlapped by a later one that passes it (baaa / aa\> : the occurrence at
+# 1 is followed by a word character, the one at 2 ends the word; ba-a-a / \<a-a : the one at 1 follows b, the one at 3
+# follows -).  A word w with a border (a proper prefix that is also a suffix) has a period p < |w|; run(w, k) = k
+# occurrences of w, each starting p bytes after the previous one.
+
+OV_WORDS = ['aa', 'aaa', 'abab', 'aba', 'a-a', 'ab-ab', 'a a', '-a-', 'a-a-a', 'é-é', '中a中', 'aA', 'x_x', '1-1', 'b.b', 'é中é']
+OV_EDGE = ['', 'b', '-', ' ', '中', '_']
+
+
+def period(w):
+    for p in range(1, len(w) + 1):
+        if w[p:] == w[:len(w) - p]:
+            return p
+    return len(w)
+
+
+def run_of(w, k):
+    return w + w[len(w) - period(w):] * (k - 1)
+
+
+def ov_patterns(w):
+    wb, we = ['wbeg', 0, 0], ['wend', 0, 0]
+    return [L(w) + [we], [wb] + L(w), [wb] + L(w) + [we], L(w) + [we, E_], [B_, wb] + L(w), [B_] + L(w) + [we], L(w)]
+
+
+def ov_texts(w):
+    """lines in which occurrences of w overlap, each run between different neighbours (a word character, a
+    non-word character, a multi-byte character, nothing), next to isolated occurrences"""
+    a = ['start', 'b' + run_of(w, 2) + ' ' + w, w + ' b' + run_of(w, 2), run_of(w, 3) + 'b ' + run_of(w, 2), 'end']
+    b = [run_of(w, 2) + '-' + run_of(w, 3), '中' + run_of(w, 2) + '中 ' + w + '_' + run_of(w, 2), '', ' ' + run_of(w, 4) + ' ', 'xx ' + run_of(w, 2) + ' ' + w]
+    return [a, b]
+
+
+def gen_overlap_case(rng):
+    """random: w = u v u over a small alphabet, lines made of runs of w between random neighbours, pattern anchored at
+    random with \\< \\> ^ $"""
+    al = rng.choice([['a', 'b'], ['a', '-'], ['a', 'b', '-', ' '], ['a', 'é', '-'], ['a', '_', ' ', 'A'], ['中', 'a', '.']])
+    u = ''.join(rng.choice(al) for _ in range(rng.choice([1, 1, 2])))
+    v = ''.join(rng.choice(al) for _ in range(rng.choice([0, 0, 1, 1, 2])))
+    w = u + v + u
+    lines = []
+    for i in range(rng.choice([1, 2, 3, 4])):
+        ln = ''
+        for j in range(rng.choice([0, 1, 2, 3])):
+            ln += rng.choice(OV_EDGE + al) if rng.chance(2, 3) else ''
+            ln += run_of(w, rng.choice([1, 2, 2, 3, 4]))
+        if rng.chance(1, 2):
+            ln += rng.choice(OV_EDGE + al)
+        lines.append(ln)
+    return lines, rng.choice(ov_patterns(w)[:6]) if rng.chance(5, 6) else L(w)
+
+
+# ---------------------------------------------------------------------------------------------
+# histories: several searches in ONE editor session, patterns the editor rejects in front of valid ones (round i/j).
+# Where a search lands is a function of (text, cursor, pattern, direction, remembered offset) only; what was compiled --
+# and rejected -- before must not matter (regex.c keeps a file-static "malformed" flag between regcomp calls).  The only
+# rule that looks back is the documented one: an empty pattern (and n / N) use the LAST pattern, also when that one is
+# malformed (they then fail in place).
+
+# rejected by the parser of regex.c (they reach regcomp): bad repetition counts, a group with an empty alternative only
+BAD_REGEX = ['a{3,2}', 'a{200}', 'a{x}', '(|)', 'b{2,1}d', 'x(|)y', 'a{3,2}|b', 'b|a{2,1}', '(a{9,1})', '[ab]{7,3}', 'a{1,300}', '.{x}', '(a|(|))']
+# rejected before regcomp is called, by re_groupcount of rset.c: unbalanced parentheses, an unclosed bracket expression
+BAD_WRAP = ['(', 'a)', '(a', '[a', 'a(b', '(a))', '[^', 'a[b-']
+HIST_TEXTS = [
+    ['start', 'xx abd', 'b-d here', 'abd b-d', 'end'],
+    ['aab ab', '', 'b.d a{3,2}', 'é中 b中d', 'a{200} (|) abd'],
+    ['(|) x.', 'ab', 'a{x} ab', '  xé b-d'],
+]
+ANY, STAR_A = ['any', 0, 0], ['lit', 'a', 1]
+GOOD_REGEX = [L('b') + [ANY] + L('d'), [['cls', [0, [['b', 'b']]], 0]] + L('-d'), L('x') + [ANY], [STAR_A] + L('b'), [ANY], L('a') + [['cls', [1, [['b', 'b']]], 0]],
+              [B_, ANY], [ANY, E_], [['cls', [0, [['a', 'b']]], 1]] + L('d'), L('b') + [['any', 0, 1]] + L('d'), L('é') + [ANY]]
+GOOD_LIT = [L('abd'), L('ab'), [['wbeg', 0, 0]] + L('ab') + [['wend', 0, 0]], [B_] + L('a'), L('d') + [E_], L('b-d')]
+
+
+def bad_toks(rng, only_regex=False):
+    return [['bad', rng.choice(BAD_REGEX if only_regex or rng.chance(3, 4) else BAD_WRAP), 0]]
+
+
+def hist_shapes(rng, bad, bad2, good, lit):
+    """sessions around one valid search `good` (a / or ? command); bad, bad2 = malformed / or ? commands"""
+    n, N, A = ['n', None, 1, ''], ['N', None, 1, ''], ['A', None, 1, '']
+    S, G = ['S', bad[1], 1, ''], ['G', bad2[1], 1, '']
+    empty = [rng.choice('/?'), None, 1, '']
+    return [[bad, good], [bad, bad2, good], [bad, lit, good], [bad, A, good], [bad, good, n], [bad, good, N], [good, bad, good], [good, bad, n],
+            [bad, empty, good], [lit, bad, A, bad2, good], [S, good], [G, good], [good, S, n], [bad, G, lit, good, n], [bad, good, bad2, dict_rev(good)],
+            [A, bad, good, N]]
+
+
+def dict_rev(cmd):
+    c = list(cmd)
+    c[0] = '?' if c[0] == '/' else '/'
+    return c
+
+
+
 def cases(ctx):
     rng = ctx.rng
     out = []
@@ -679,6 +797,64 @@ def cases(ctx):
         r = rng.below(len(text))
         out.append({'text': text, 'ic': True, 'row': r, 'col': rng.below(max(1, len(text[r]))), 'cmds': bs_cmds(rng, '/' if '?' in w else rng.choice('/?'), w),
                     'src': 'backslash-random'})
+    # self-overlapping literals with \< / \>: every cursor position, both directions, counts, then n / N, and ^A on the word
+    for wi, w in enumerate(OV_WORDS):
+        for text in ov_texts(w):
+            for r, line in enumerate(text):
+                for c in range(max(1, len(line))):
+                    for pi, toks in enumerate(ov_patterns(w)):
+                        for kind in '/?':
+                            for more in ([], [['n', None, 1, '']], [['N', None, 1, '']], None):
+                                if not rng.chance(1, (45 if pi < 6 else 200) if ctx.quick else 5):
+                                    continue
+                                cnt = 1 if more is not None else 2
+                                out.append({'text': text, 'ic': not rng.chance(1, 4), 'row': r, 'col': c, 'cmds': [[kind, toks, cnt, '']] + (more or []), 'src': 'overlap'})
+                    if rng.chance(1, 6 if ctx.quick else 1):
+                        out.append({'text': text, 'ic': True, 'row': r, 'col': c,
+                                    'cmds': [['A', None, rng.choice([1, 1, 2]), '']] + rng.choice([[], [['n', None, 1, '']], [['N', None, 1, '']]]), 'src': 'overlap'})
+    for i in range(250 if ctx.quick else 5000):
+        text, toks = gen_overlap_case(rng)
+        r = rng.below(len(text))
+        cmds = [[rng.choice('/?'), toks, rng.choice([1, 1, 1, 2, 3]), '']]
+        for j in range(rng.choice([0, 0, 1, 2])):
+            cmds.append([rng.choice('nN'), None, rng.choice([1, 1, 2]), ''])
+        out.append({'text': text, 'ic': rng.chance(3, 4), 'row': r, 'col': rng.below(max(1, len(text[r]))), 'cmds': cmds, 'src': 'overlap-random'})
+    # histories: malformed patterns (and ex commands that leave one behind) in front of valid searches, in one session
+    for text in HIST_TEXTS:
+        for r, line in enumerate(text):
+            for c in range(max(1, len(line))):
+                for good_t in GOOD_REGEX + GOOD_LIT:
+                    for kind in '/?':
+                        if not rng.chance(1, 14 if ctx.quick else 1):
+                            continue
+                        good = [kind, good_t, rng.choice([1, 1, 1, 2]), rng.choice(['', '', '', '', '+1', '-1'])]
+                        bad = [rng.choice('/?'), bad_toks(rng, True), 1, rng.choice(['', '', '', '1'])]
+                        bad2 = [rng.choice('/?'), bad_toks(rng), rng.choice([1, 2]), '']
+                        lit = [rng.choice('/?'), rng.choice(GOOD_LIT), 1, '']
+                        out.append({'text': text, 'ic': not rng.chance(1, 5), 'row': r, 'col': c, 'cmds': rng.choice(hist_shapes(rng, bad, bad2, good, lit)), 'src': 'history'})
+    for i in range(250 if ctx.quick else 5000):
+        text = rng.choice(HIST_TEXTS) if rng.chance(1, 2) else gen_text(rng)
+        r = rng.below(len(text))
+        cmds = []
+        have = False
+        for j in range(rng.choice([2, 3, 3, 4, 5, 6])):
+            t = rng.below(12)
+            if t < 4 or (not have and t >= 8):
+                cmds.append([rng.choice('/?'), bad_toks(rng), rng.choice([1, 1, 2]), rng.choice(['', '', '', '+1'])])
+                have = True
+            elif t < 8:
+                toks = rng.choice(GOOD_REGEX) if rng.chance(2, 3) else (rng.choice(GOOD_LIT + FIXED_PATTERNS) if rng.chance(1, 2) else gen_tokens(rng))
+                cmds.append([rng.choice('/?'), toks, rng.choice([1, 1, 1, 2]), rng.choice(['', '', '', '', '-1'])])
+                have = True
+            elif t < 9:
+                cmds.append(['n', None, rng.choice([1, 1, 2]), ''])
+            elif t < 10:
+                cmds.append(['N', None, 1, ''])
+            elif t < 11:
+                cmds.append([rng.choice('SG'), bad_toks(rng), 1, ''])
+            else:
+                cmds.append([rng.choice('/?'), None, 1, ''])            # the last pattern again, whatever it was
+        out.append({'text': text, 'ic': not rng.chance(1, 5), 'row': r, 'col': rng.below(max(1, len(text[r]))), 'cmds': cmds, 'src': 'history-random'})
     # ^A from every position
     for text in texts[:8]:
         for r, line in enumerate(text):
@@ -738,6 +914,8 @@ def run(ctx):
                 have = havepat = True
             elif cmd[0] == 'A':
                 have = True
+            elif cmd[0] in 'SG':
+                have = havepat = True
             elif not have:
                 return False
         return True
